@@ -4,7 +4,7 @@
    irreflexive, and > <= >= are derived from < exactly as the property demands.
    REFUTED (known finding, see known_findings.txt): transitivity of the vector-level <. *)
 From Coq Require Import ZArith List Bool.
-From Cntgs Require Import Base Layout Mem Vector Proxy World Spec Rep CompareThm ElemThm CmpContent Rep FastEq FastLess LessVec.
+From Cntgs Require Import Base Layout Mem Vector Proxy World Spec Rep CompareThm ElemThm CmpContent Rep FastEq FastLess LessVec LessAsym.
 Import ListNotations.
 Local Open Scope Z_scope.
 
@@ -117,3 +117,28 @@ Theorem C14_vector_less_elementwise_is_lexicographic_on_content : forall L, wf_p
   vec_less L v1 v2 = lexb _ (tuple_less L) l1 l2.
 Proof. intros L Hwf v1 l1 v2 l2 [o1 R1] [o2 R2]. exact (vec_less_content_elementwise L Hwf v1 v2 l1 l2 o1 o2 R1 R2). Qed.
 Print Assumptions C14_vector_less_elementwise_is_lexicographic_on_content.
+
+(* what the vector order keeps on EVERY parameter list and on both paths although the element
+   order is only a product order (transitivity fails: C14_vector_less_transitive_refuted):
+   in every pair of represented states a < b excludes b < a ... *)
+Theorem C14_vector_less_asymmetric : forall L, wf_plist L = true -> L <> [] ->
+  forall v1 l1 v2 l2, Rep L v1 l1 -> Rep L v2 l2 ->
+  vec_less L v1 v2 = true -> vec_less L v2 v1 = false.
+Proof. intros L Hwf HL v1 l1 v2 l2. exact (vec_less_asym L Hwf HL v1 v2 l1 l2). Qed.
+Print Assumptions C14_vector_less_asymmetric.
+
+(* ... a vector whose list of elements is a strict prefix of the other's is less, whatever the
+   elements are (capacities, junk, histories and fixed sizes of the two operands arbitrary) ... *)
+Theorem C14_strict_prefix_is_less : forall L, wf_plist L = true -> L <> [] ->
+  forall v1 l1 v2 l2, Rep L v1 l1 -> Rep L v2 l2 ->
+  forall c, c <> [] -> l2 = l1 ++ c ->
+  vec_less L v1 v2 = true /\ vec_less L v2 v1 = false.
+Proof. intros L Hwf HL v1 l1 v2 l2. exact (vec_less_strict_prefix L Hwf HL v1 v2 l1 l2). Qed.
+Print Assumptions C14_strict_prefix_is_less.
+
+(* ... and the empty vector is below exactly the non-empty ones *)
+Theorem C14_empty_vector_is_least : forall L, wf_plist L = true -> L <> [] ->
+  forall v1 l1 v2 l2, Rep L v1 l1 -> Rep L v2 l2 -> l1 = [] ->
+  vec_less L v1 v2 = negb (Z.of_nat (length l2) =? 0)%Z /\ vec_less L v2 v1 = false.
+Proof. intros L Hwf HL v1 l1 v2 l2. exact (vec_less_empty L Hwf HL v1 v2 l1 l2). Qed.
+Print Assumptions C14_empty_vector_is_least.
